@@ -43,6 +43,17 @@ theorem placeIds_shift {d : Nat} {g g' : Nat → Nat × Nat} (ns : List Bytes) {
     have := h.get 1 (by simp only [List.length_cons]; omega) rfl rfl
     simp [identAt, PIdent.shift, this]
 
+theorem placePath_shift {d : Nat} {g g' : Nat → Nat × Nat} (ns : List Bytes) {k k' : Nat}
+    (h : Sh d g k g' k' (pathToks ns).length) :
+    (placePath g' ns k').1 = (placePath g ns k).1.map (PIdent.shift d) := by
+  cases ns with
+  | nil => simp [placePath]
+  | cons a ns =>
+    rw [pathToks_length] at h
+    have h0 := h.get0 (by omega)
+    have hs := placeIds_shift ns (h.sub 1 (2 * ns.length) (by omega) rfl rfl)
+    simp [placePath, hs, identAt, PIdent.shift, h0]
+
 mutual
 theorem placeG_shift {d : Nat} {g g' : Nat → Nat × Nat} :
     (x : Expr) → (i i' : Nat) → Sh d g i g' i' (ntok x) → (placeG g' x i').1 = shiftP d (placeG g x i).1
@@ -139,6 +150,60 @@ theorem placeG_shift {d : Nat} {g g' : Nat → Nat × Nat} :
     have h3 := h.get (ntok e + 3 + ntok ix + 1) (a := i + ntok e + 3 + ntok ix + 1)
       (a' := i' + ntok e + 3 + ntok ix + 1) (by rw [ntok_index_some]; omega) (by omega) (by omega)
     simp only [placeG, shiftP, placeG_snd, IHe, IHx, h1, h2, h3, Option.map_some, PKw.shift]
+  | .cast e ns, i, i', h => by
+    have IHe := placeG_shift e (i + 2) (i' + 2) (h.sub 2 _ (by rw [ntok_cast]; omega) rfl rfl)
+    have IHp := placePath_shift (g := g) (g' := g') (d := d) ns (k := i + 2 + ntok e + 1) (k' := i' + 2 + ntok e + 1)
+      (h.sub (2 + ntok e + 1) _ (by rw [ntok_cast]; omega) (by omega) (by omega))
+    have h0 := h.get0 (by rw [ntok_cast]; omega)
+    have h1 := h.get (2 + ntok e + 1 + (pathToks ns).length) (a := i + 2 + ntok e + 1 + (pathToks ns).length)
+      (a' := i' + 2 + ntok e + 1 + (pathToks ns).length) (by rw [ntok_cast]; omega) (by omega) (by omega)
+    simp only [placeG, shiftP, placeG_snd, placePath_snd, IHe, IHp, h0, h1]
+  | .array .nil, i, i', h => by
+    have h0 := h.get0 (by rw [ntok_arr_nil]; omega)
+    have h1 := h.get 1 (by rw [ntok_arr_nil]; omega) rfl rfl
+    simp only [placeG, shiftP, shiftPs, h0, h1]
+  | .array (.cons e es), i, i', h => by
+    have IHe := placeG_shift e (i + 1) (i' + 1) (h.sub 1 _ (by rw [ntok_arr_cons]; omega) rfl rfl)
+    have IHs := placesG_shift es (i + 1 + ntok e) (i' + 1 + ntok e)
+      (h.sub (1 + ntok e) _ (by rw [ntok_arr_cons]; omega) (by omega) (by omega))
+    have h0 := h.get0 (by rw [ntok_arr_cons]; omega)
+    have h1 := h.get (1 + ntok e + ntoks es) (a := i + 1 + ntok e + ntoks es) (a' := i' + 1 + ntok e + ntoks es)
+      (by rw [ntok_arr_cons]; omega) (by omega) (by omega)
+    simp only [placeG, shiftP, shiftPs, placeG_snd, placesG_snd, IHe, IHs, h0, h1]
+  | .ifE c t e, i, i', h => by
+    have IHc := placeG_shift c (i + 2) (i' + 2) (h.sub 2 _ (by rw [ntok_ifE]; omega) rfl rfl)
+    have IHt := placeG_shift t (i + 2 + ntok c + 1) (i' + 2 + ntok c + 1)
+      (h.sub (2 + ntok c + 1) _ (by rw [ntok_ifE]; omega) (by omega) (by omega))
+    have IHe := placeG_shift e (i + 2 + ntok c + 1 + ntok t + 1) (i' + 2 + ntok c + 1 + ntok t + 1)
+      (h.sub (2 + ntok c + 1 + ntok t + 1) _ (by rw [ntok_ifE]; omega) (by omega) (by omega))
+    have h0 := h.get0 (by rw [ntok_ifE]; omega)
+    have h1 := h.get (2 + ntok c + 1 + ntok t + 1 + ntok e) (a := i + 2 + ntok c + 1 + ntok t + 1 + ntok e)
+      (a' := i' + 2 + ntok c + 1 + ntok t + 1 + ntok e) (by rw [ntok_ifE]; omega) (by omega) (by omega)
+    simp only [placeG, shiftP, placeG_snd, IHc, IHt, IHe, h0, h1]
+  | .caseE o c t ws el, i, i', h => by
+    have hn := ntok_caseE o el c t ws
+    have IHo := placeO_shift false o (i + 1) (i' + 1)
+      (h.sub 1 _ (by rw [hn]; simp only [preKw, Bool.false_eq_true, if_false]; omega) rfl rfl)
+    have IHc := placeG_shift c (i + 1 + ntokO [] o + 1) (i' + 1 + ntokO [] o + 1)
+      (h.sub (1 + ntokO [] o + 1) _ (by rw [hn]; omega) (by omega) (by omega))
+    have IHt := placeG_shift t (i + 1 + ntokO [] o + 1 + ntok c + 1) (i' + 1 + ntokO [] o + 1 + ntok c + 1)
+      (h.sub (1 + ntokO [] o + 1 + ntok c + 1) _ (by rw [hn]; omega) (by omega) (by omega))
+    have IHw := placeW_shift ws (i + 1 + ntokO [] o + 1 + ntok c + 1 + ntok t)
+      (i' + 1 + ntokO [] o + 1 + ntok c + 1 + ntok t)
+      (h.sub (1 + ntokO [] o + 1 + ntok c + 1 + ntok t) _ (by rw [hn]; omega) (by omega) (by omega))
+    have IHe := placeO_shift true el (i + 1 + ntokO [] o + 1 + ntok c + 1 + ntok t + ntokW ws)
+      (i' + 1 + ntokO [] o + 1 + ntok c + 1 + ntok t + ntokW ws)
+      (h.sub (1 + ntokO [] o + 1 + ntok c + 1 + ntok t + ntokW ws) _
+        (by rw [hn]; simp only [preKw, if_true]; omega) (by omega) (by omega))
+    have h0 := h.get0 (by rw [hn]; omega)
+    have hw := h.get (1 + ntokO [] o) (a := i + 1 + ntokO [] o) (a' := i' + 1 + ntokO [] o) (by rw [hn]; omega)
+      (by omega) (by omega)
+    have he := h.get (1 + ntokO [] o + 1 + ntok c + 1 + ntok t + ntokW ws + ntokO [T .else_] el)
+      (a := i + 1 + ntokO [] o + 1 + ntok c + 1 + ntok t + ntokW ws + ntokO [T .else_] el)
+      (a' := i' + 1 + ntokO [] o + 1 + ntok c + 1 + ntok t + ntokW ws + ntokO [T .else_] el)
+      (by rw [hn]; omega) (by omega) (by omega)
+    simp only [placeG, shiftP, placeG_snd, placeO_snd, placeW_snd, Bool.false_eq_true, if_false, if_true,
+      IHo, IHc, IHt, IHw, IHe, h0, hw, he]
 theorem placesG_shift {d : Nat} {g g' : Nat → Nat × Nat} :
     (es : Exprs) → (i i' : Nat) → Sh d g i g' i' (ntoks es) → (placesG g' es i').1 = shiftPs d (placesG g es i).1
   | .nil, _, _, _ => by simp [placesG, shiftPs]
@@ -147,6 +212,30 @@ theorem placesG_shift {d : Nat} {g g' : Nat → Nat × Nat} :
     have IHs := placesG_shift es (i + 1 + ntok e) (i' + 1 + ntok e)
       (h.sub (1 + ntok e) _ (by rw [ntoks_cons]; omega) (by omega) (by omega))
     simp only [placesG, shiftPs, placeG_snd, IHe, IHs]
+theorem placeW_shift {d : Nat} {g g' : Nat → Nat × Nat} :
+    (ws : Whens) → (i i' : Nat) → Sh d g i g' i' (ntokW ws) → (placeW g' ws i').1 = shiftPW d (placeW g ws i).1
+  | .nil, _, _, _ => by simp [placeW, shiftPW]
+  | .cons c t ws, i, i', h => by
+    have IHc := placeG_shift c (i + 1) (i' + 1) (h.sub 1 _ (by rw [ntokW_cons]; omega) rfl rfl)
+    have IHt := placeG_shift t (i + 1 + ntok c + 1) (i' + 1 + ntok c + 1)
+      (h.sub (1 + ntok c + 1) _ (by rw [ntokW_cons]; omega) (by omega) (by omega))
+    have IHw := placeW_shift ws (i + 1 + ntok c + 1 + ntok t) (i' + 1 + ntok c + 1 + ntok t)
+      (h.sub (1 + ntok c + 1 + ntok t) _ (by rw [ntokW_cons]; omega) (by omega) (by omega))
+    have h0 := h.get0 (by rw [ntokW_cons]; omega)
+    simp only [placeW, shiftPW, placeG_snd, IHc, IHt, IHw, h0]
+theorem placeO_shift {d : Nat} {g g' : Nat → Nat × Nat} (kw : Bool) :
+    (o : OExpr) → (i i' : Nat) → Sh d g i g' i' (ntokO (preKw kw) o) →
+      (placeO g' kw o i').1 = shiftPO d (placeO g kw o i).1
+  | .none, _, _, _ => by simp [placeO, shiftPO]
+  | .some e, i, i', h => by
+    cases kw with
+    | false =>
+      have IH := placeG_shift e i i' (h.sub 0 _ (by simp [ntokO_some, preKw]) rfl rfl)
+      simp only [placeO, shiftPO, nb, Bool.false_eq_true, if_false, Nat.add_zero, IH, Nat.zero_sub]
+    | true =>
+      have IH := placeG_shift e (i + 1) (i' + 1) (h.sub 1 _ (by simp [ntokO_some, preKw]) rfl rfl)
+      have h0 := h.get0 (by simp [ntokO_some, preKw]; omega)
+      simp only [placeO, shiftPO, nb, if_true, IH, h0]
 end
 
 /-! ## `placeG` keeps the shape -/
@@ -156,6 +245,11 @@ theorem placeIds_names (g : Nat → Nat × Nat) (ns : List Bytes) (k : Nat) :
   induction ns generalizing k with
   | nil => simp [placeIds]
   | cons n ns ih => simp [placeIds, ih, identAt]
+
+theorem placePath_names (g : Nat → Nat × Nat) (ns : List Bytes) (k : Nat) : (placePath g ns k).1.map (·.name) = ns := by
+  cases ns with
+  | nil => simp [placePath]
+  | cons a ns => simp [placePath, placeIds_names, identAt]
 
 mutual
 theorem erase_placeG (g : Nat → Nat × Nat) : (x : Expr) → (i : Nat) → erase (placeG g x i).1 = x
@@ -176,9 +270,22 @@ theorem erase_placeG (g : Nat → Nat × Nat) : (x : Expr) → (i : Nat) → era
   | .index e none ix, i => by simp only [placeG, erase, erase_placeG g e, erase_placeG g ix, Option.map_none]
   | .index e (some (_, _)) ix, i => by
     simp only [placeG, erase, erase_placeG g e, erase_placeG g ix, Option.map_some, PKw.erase]
+  | .caseE o c t ws el, i => by
+    simp only [placeG, erase, eraseO_placeO g false o, erase_placeG g c, erase_placeG g t, eraseW_placeW g ws,
+      eraseO_placeO g true el]
+  | .ifE c t e, i => by simp only [placeG, erase, erase_placeG g c, erase_placeG g t, erase_placeG g e]
+  | .cast e ns, i => by simp only [placeG, erase, erase_placeG g e, placePath_names]
+  | .array .nil, _ => by simp [placeG, erase, erases]
+  | .array (.cons e es), i => by simp only [placeG, erase, erases, erase_placeG g e, erases_placesG g es]
 theorem erases_placesG (g : Nat → Nat × Nat) : (es : Exprs) → (i : Nat) → erases (placesG g es i).1 = es
   | .nil, _ => by simp [placesG, erases]
   | .cons e es, i => by simp only [placesG, erases, erase_placeG g e, erases_placesG g es]
+theorem eraseW_placeW (g : Nat → Nat × Nat) : (ws : Whens) → (i : Nat) → eraseW (placeW g ws i).1 = ws
+  | .nil, _ => by simp [placeW, eraseW]
+  | .cons c t ws, i => by simp only [placeW, eraseW, erase_placeG g c, erase_placeG g t, eraseW_placeW g ws]
+theorem eraseO_placeO (g : Nat → Nat × Nat) (kw : Bool) : (o : OExpr) → (i : Nat) → eraseO (placeO g kw o i).1 = o
+  | .none, _ => by simp [placeO, eraseO]
+  | .some e, i => by simp only [placeO, eraseO, erase_placeG g e]
 end
 
 /-! ## the sub-expressions -/
@@ -403,6 +510,85 @@ theorem subs_ok : (x : Expr) → (i : Nat) → Pre all i (yield x) → nf x = tr
     · exact (IHe n hn).mono (Nat.le_refl _) (by rw [ntok_index_some]; omega)
     · exact (IHx n (by rwa [show i + ntok e + 1 + 1 + 1 = i + ntok e + 3 by omega])).mono (by omega)
         (by rw [ntok_index_some]; omega)
+  | .cast e ns, i, hpre, hnf, hp, hprev => by
+    intro n hn
+    have hs := subAt_self hpre hnf hp hprev
+    simp only [yield, Pre_cons', Pre_append, Pre_nil, and_true, yield_length] at hpre
+    obtain ⟨_, hlp, he, _⟩ := hpre
+    simp only [nf, Bool.and_eq_true] at hnf
+    simp only [precOK] at hp
+    have e2 : i + 1 + 1 = i + 2 := by omega
+    rw [e2] at he
+    have IH := subs_ok e (i + 2) he hnf.1 hp (by rw [← e2]; exact prevOK_of_tok hlp (by decide))
+    simp only [placeG, subsP, List.mem_cons] at hn hs
+    rcases hn with rfl | hn
+    · exact hs
+    · exact (IH n hn).mono (by omega) (by rw [ntok_cast]; omega)
+  | .array .nil, i, hpre, hnf, hp, hprev => by
+    intro n hn
+    have hs := subAt_self hpre hnf hp hprev
+    simp only [placeG, subsP, subsPs, List.mem_cons, List.not_mem_nil, or_false, List.append_nil] at hn hs
+    subst hn; exact hs
+  | .array (.cons e es), i, hpre, hnf, hp, hprev => by
+    intro n hn
+    have hs := subAt_self hpre hnf hp hprev
+    simp only [yield, Pre_cons', Pre_append, Pre_nil, and_true, yield_length, yields_length] at hpre
+    obtain ⟨hlb, he, hes, _⟩ := hpre
+    simp only [nf, nfs, Bool.and_eq_true] at hnf
+    simp only [precOK, precOKs, Bool.and_eq_true] at hp
+    have IHe := subs_ok e (i + 1) he hnf.1 hp.1 (prevOK_of_tok hlb (by decide))
+    have IHs := subss_ok es (i + 1 + ntok e) hes hnf.2 hp.2
+    simp only [placeG, subsP, subsPs, List.mem_cons, List.mem_append, placeG_snd] at hn hs
+    rcases hn with rfl | hn | hn
+    · exact hs
+    · exact (IHe n hn).mono (by omega) (by rw [ntok_arr_cons]; omega)
+    · exact (IHs n hn).mono (by omega) (by rw [ntok_arr_cons]; omega)
+  | .ifE c t e, i, hpre, hnf, hp, hprev => by
+    intro n hn
+    have hs := subAt_self hpre hnf hp hprev
+    simp only [yield, Pre_cons', Pre_append, Pre_nil, and_true, yield_length] at hpre
+    obtain ⟨_, hlp, hc, hc1, ht, hc2, he, _⟩ := hpre
+    simp only [nf, Bool.and_eq_true] at hnf
+    simp only [precOK, Bool.and_eq_true] at hp
+    have e2 : i + 1 + 1 = i + 2 := by omega
+    rw [e2] at hc hc1 ht hc2 he
+    have IHc := subs_ok c (i + 2) hc hnf.1.1 hp.1.1 (by rw [← e2]; exact prevOK_of_tok hlp (by decide))
+    have IHt := subs_ok t (i + 2 + ntok c + 1) ht hnf.1.2 hp.1.2 (prevOK_of_tok hc1 (by decide))
+    have IHe := subs_ok e (i + 2 + ntok c + 1 + ntok t + 1) he hnf.2 hp.2 (prevOK_of_tok hc2 (by decide))
+    simp only [placeG, subsP, List.mem_cons, List.mem_append, placeG_snd] at hn hs
+    rcases hn with rfl | hn | hn | hn
+    · exact hs
+    · exact (IHc n hn).mono (by omega) (by rw [ntok_ifE]; omega)
+    · exact (IHt n hn).mono (by omega) (by rw [ntok_ifE]; omega)
+    · exact (IHe n hn).mono (by omega) (by rw [ntok_ifE]; omega)
+  | .caseE o c t ws el, i, hpre, hnf, hp, hprev => by
+    intro n hn
+    have hs := subAt_self hpre hnf hp hprev
+    simp only [yield, Pre_cons', Pre_append, Pre_nil, and_true, yield_length] at hpre
+    obtain ⟨hcase, hO, hwh, hc, hth, ht, hW, hE, _⟩ := hpre
+    have lO : (yieldO [] o).length = ntokO [] o := rfl
+    have lW : (yieldW ws).length = ntokW ws := rfl
+    rw [lO] at hwh hc hth ht hW hE
+    rw [lW] at hE
+    simp only [nf, Bool.and_eq_true] at hnf
+    simp only [precOK, Bool.and_eq_true] at hp
+    have IHo := subso_ok false o (i + 1) hO hnf.1.1.1.1 hp.1.1.1.1 (fun _ => prevOK_of_tok hcase (by decide))
+    have IHc := subs_ok c (i + 1 + ntokO [] o + 1) hc hnf.1.1.1.2 hp.1.1.1.2 (prevOK_of_tok hwh (by decide))
+    have IHt := subs_ok t (i + 1 + ntokO [] o + 1 + ntok c + 1) ht hnf.1.1.2 hp.1.1.2 (prevOK_of_tok hth (by decide))
+    have IHw := subsw_ok ws (i + 1 + ntokO [] o + 1 + ntok c + 1 + ntok t) hW hnf.1.2 hp.1.2
+    have IHe := subso_ok true el (i + 1 + ntokO [] o + 1 + ntok c + 1 + ntok t + ntokW ws) hE hnf.2 hp.2
+      (fun h => by cases h)
+    have hcn := ntok_caseE o el c t ws
+    simp only [preKw, Bool.false_eq_true, if_false, if_true] at IHo IHe
+    simp only [placeG, subsP, List.mem_cons, List.mem_append, placeG_snd, placeO_snd, placeW_snd,
+      Bool.false_eq_true, if_false, if_true] at hn hs
+    rcases hn with rfl | hn | hn | hn | hn | hn
+    · exact hs
+    · exact (IHo n hn).mono (by omega) (by omega)
+    · exact (IHc n hn).mono (by omega) (by omega)
+    · exact (IHt n hn).mono (by omega) (by omega)
+    · exact (IHw n hn).mono (by omega) (by omega)
+    · exact (IHe n hn).mono (by omega) (by omega)
 theorem subss_ok : (es : Exprs) → (i : Nat) → Pre all i (yields es) → nfs es = true → precOKs es = true →
     ∀ n ∈ subsPs (placesG (pe all) es i).1, SubAt all i (i + ntoks es) n
   | .nil, _, _, _, _ => by simp [placesG, subsPs]
@@ -418,6 +604,45 @@ theorem subss_ok : (es : Exprs) → (i : Nat) → Pre all i (yields es) → nfs 
     rcases hn with hn | hn
     · exact (IHe n hn).mono (by omega) (by rw [ntoks_cons]; omega)
     · exact (IHs n hn).mono (by omega) (by rw [ntoks_cons]; omega)
+theorem subsw_ok : (ws : Whens) → (i : Nat) → Pre all i (yieldW ws) → nfw ws = true → precOKw ws = true →
+    ∀ n ∈ subsPW (placeW (pe all) ws i).1, SubAt all i (i + ntokW ws) n
+  | .nil, _, _, _, _ => by simp [placeW, subsPW]
+  | .cons c t ws, i, hpre, hnf, hp => by
+    intro n hn
+    simp only [yieldW, Pre_cons', Pre_append, yield_length] at hpre
+    obtain ⟨hwh, hc, hth, ht, hW⟩ := hpre
+    simp only [nfw, Bool.and_eq_true] at hnf
+    simp only [precOKw, Bool.and_eq_true] at hp
+    have IHc := subs_ok c (i + 1) hc hnf.1.1 hp.1.1 (prevOK_of_tok hwh (by decide))
+    have IHt := subs_ok t (i + 1 + ntok c + 1) ht hnf.1.2 hp.1.2 (prevOK_of_tok hth (by decide))
+    have IHw := subsw_ok ws (i + 1 + ntok c + 1 + ntok t) hW hnf.2 hp.2
+    simp only [placeW, subsPW, List.mem_append, placeG_snd] at hn
+    rcases hn with hn | hn | hn
+    · exact (IHc n hn).mono (by omega) (by rw [ntokW_cons]; omega)
+    · exact (IHt n hn).mono (by omega) (by rw [ntokW_cons]; omega)
+    · exact (IHw n hn).mono (by omega) (by rw [ntokW_cons]; omega)
+theorem subso_ok (kw : Bool) : (o : OExpr) → (i : Nat) → Pre all i (yieldO (preKw kw) o) → nfo o = true →
+    precOKo o = true → (kw = false → PrevOK all i) →
+    ∀ n ∈ subsPO (placeO (pe all) kw o i).1, SubAt all i (i + ntokO (preKw kw) o) n
+  | .none, _, _, _, _, _ => by simp [placeO, subsPO]
+  | .some e, i, hpre, hnf, hp, hprev => by
+    intro n hn
+    simp only [nfo] at hnf
+    simp only [precOKo] at hp
+    cases kw with
+    | false =>
+      simp only [yieldO, preKw, Bool.false_eq_true, if_false, List.nil_append] at hpre
+      have IH := subs_ok e i hpre hnf hp (hprev rfl)
+      simp only [placeO, subsPO, nb, Bool.false_eq_true, if_false, Nat.add_zero] at hn
+      simp only [preKw, Bool.false_eq_true, if_false, ntokO_some, List.length_nil, Nat.zero_add]
+      exact IH n hn
+    | true =>
+      simp only [yieldO, preKw, if_true, List.cons_append, List.nil_append, Pre_cons'] at hpre
+      obtain ⟨hel, he⟩ := hpre
+      have IH := subs_ok e (i + 1) he hnf hp (prevOK_of_tok hel (by decide))
+      simp only [placeO, subsPO, nb, if_true] at hn
+      simp only [preKw, if_true, ntokO_some, List.length_cons, List.length_nil]
+      exact (IH n hn).mono (by omega) (by omega)
 end
 
 end subs
